@@ -303,3 +303,65 @@ class C17(Check):
                 specs.append(S.BATCH_DIRECT(K, pattern=pat, size=size, cap=4 if size else None, sink_cycle=1 if size else 0))
         specs += [S.BUFBATCH(K), S.BUFBATCH(K, pattern=(3, 2), cap=4, size=2), S.BATCHGATE(K)]
         return _line_jobs(specs, ['batching', 'census', 'route'], tier)
+
+
+@check
+class C18(Check):
+    prop = 'C18'
+    rule = ('every well-posed timetable of length 1..3 over durations {0, 0.5, 1, 2} (states a, b, a: a repeated state), cyclical '
+            'and not, horizon 6, x registrations made before the run (none / one default / default+override) x <=K register/'
+            'unregister operations (default and override actions, two objects) injected at every position (before the head event, '
+            'between instants, last of the instant) -- K=1 on the whole family, K=2 (3 thorough) on selected timetables incl. two '
+            'schedulers whose changes tie -- plus the shift schedule of examples/OperatingSchedule.py in a line with failures; '
+            'non-trivial = a state change happened and an object was (un)registered during the run')
+    level_text = ('Lock-step agreement with a timetable evaluated independently (repeated addition from the start time): '
+                  'current_state after every event, change instants (none missed, none spurious, last state kept forever when '
+                  'not cyclical), one schedule_update record per change, and at every change and at start-up exactly one action '
+                  'call per currently registered object in registration order with (scheduler, object, now, new state).')
+    nontrivial = _fact_nontrivial('state_change', 'registered_during_run')
+
+    def jobs(self, tier):
+        th = tier != 'quick'
+        jobs = []
+        pre = [[], [('o1', 'default')], [('o1', 'override'), ('o2', 'default')]]
+        for tt in S.timetables():
+            for cyc in (True, False):
+                if not S.timetable_well_posed(tt, cyc):
+                    continue
+                for pr in (pre if th else pre[:2]):
+                    jobs.append(line_job(S.SCHED(tt, cyc, pr, K=1), ['schedule'], e2=2 if not th else 5, max_depth=800))
+        K = 3 if th else 2
+        sel = [S.SCHED([(1, 'a'), (0.5, 'b')], True, [('o1', 'default')], K=K),
+               S.SCHED([(1, 'a'), (0, 'b'), (2, 'a')], False, [('o1', 'override'), ('o2', 'default')], K=K),
+               S.SCHED([(0.5, 'a'), (0, 'b'), (0.5, 'a')], True, [], K=K),
+               S.SCHED([(1, 'a'), (0.5, 'b')], True, [('o1', 'default')], K=K, second=[(0.5, 'x'), (1, 'y')]),
+               S.SCHED_BLOCK(K - 1)]
+        jobs += _line_jobs(sel, ['schedule'], tier)
+        return jobs
+
+
+@check
+class C19(Check):
+    prop = 'C19'
+    rule = ('every tie-break order x <=K injected operations (in-place mutation of the probed attribute, failure, work order, '
+            'restore of the processor under the output-part sensor) on lines with a periodic sensor (interval 0.5 / 1 / 1.5 and '
+            'the non-dyadic 0.1; 1-2 probes; data capacity 1, 2, 3, unlimited; 1-2 callbacks), an output-part sensor (sensing '
+            'interval 0, 1, 2; capacity 1 / unlimited), a second periodic sensor whose events tie with the first, and a CMS to '
+            'which one sensor is added twice; non-trivial = a series was trimmed and a tie between sensor events was broken')
+    level_text = ('Lock-step agreement with an independently computed sampling schedule and value history after every event: '
+                  'k-th periodic measurement at the k-fold repeated sum of the interval (none missed), first finished part then '
+                  'every (n+1)-th, stored series = last min(count, capacity) COPIES per probe with the time series aligned, '
+                  'callbacks and the CMS hook once each in registration order with (sensor, now, values).')
+    nontrivial = _fact_nontrivial('measurement')
+
+    def jobs(self, tier):
+        th = tier != 'quick'
+        K = 2 if th else 1
+        specs = []
+        for interval, cap in ((1, 2), (0.5, 1), (1.5, 3), (1, None)):
+            for n, ocap in ((0, None), (1, 1), (2, None)):
+                specs.append(S.SENS(K, interval=interval, cap=cap, n=n, ocap=ocap,
+                                    callbacks=2 if cap != 3 else 1, cms_twice=cap != 1,
+                                    second=1 if interval != 1.5 else None))
+        specs.append(S.SENS(0, horizon=1.0, interval=0.1, cap=3, n=0))
+        return _line_jobs(specs, ['sensors'], tier)
